@@ -12,6 +12,7 @@ Generated/C04Facts.lean (written by translate/c04.py from the current simulator.
 `C04_source_facts` lists the values the proofs rest on.
 -/
 import MxlVerif.Lemmas.C04Hist
+import MxlVerif.Lemmas.C04Search
 namespace Mxl.C04
 
 /-! ## The facts of the current source the proofs rest on -/
@@ -268,6 +269,54 @@ theorem C04_steady_continues {σ} (S : Sys σ) (p : Pars) (y0 : σ) (ops : List 
       simp only [Spec.step, Spec.steady, hf, Bool.false_eq_true, if_false, hk] at this
       simpa using this
 
+/-- THE SOLVER'S ANSWER IS NOT A FREE INPUT.  `Op.steady res` takes the iteration at which the steady-state loop stopped as
+    an input; this theorem says which: run the C15 loop (`Mxl.C15.ssRun`, with the loop facts read from the source) on the
+    flow sampled every `step_size` from the integrator's current state.  If it succeeds at step `n` with state `r`, the
+    C04 machine fed with that answer records exactly one row — at the integrator's clock + `n·step_size`, holding `r` — and
+    moves the integrator there; if it ends in `NoSteadyState` or `IntegrationFailure`, nothing is recorded and the
+    simulator is failed. (`IsFlow`: the solver's steps compose to the flow; any `ok` / `small`.) -/
+theorem C04_steady_is_the_search {σ} (S : Sys σ) (hS : IsFlow S) (s : Sim σ) (ok : σ → Bool) (small : σ → σ → Bool)
+    (hlive : s.errors = 0) :
+    let search := Mxl.C15.ssRun Mxl.C15.Gen.copies Mxl.C15.Gen.checks
+      (S.flow s.pars (Mxl.C15.Gen.stepSize : Rat)) ok small Mxl.C15.Gen.maxSteps s.integ.y0
+    (∀ n r, search = .steady n r →
+      steady S s (resOfSearch search) =
+        (handle { s with integ := { s.integ with
+            t0 := s.integ.t0 + (n : Rat) * (Mxl.C15.Gen.stepSize : Rat), y0 := r } }
+          [(s.integ.t0 + (n : Rat) * (Mxl.C15.Gen.stepSize : Rat), r)] false, none)) ∧
+    (Mxl.C15.errOf search ≠ none →
+      steady S s (resOfSearch search) = ({ s with errors := s.errors + 1 }, none)) := by
+  intro search
+  constructor
+  · intro n r h
+    have h' : Mxl.C15.ssLoop true true (S.flow s.pars (Mxl.C15.Gen.stepSize : Rat)) ok small Mxl.C15.Gen.maxSteps 0
+        (.val s.integ.y0) s.integ.y0 = .steady n r := h
+    obtain ⟨m, hm, hn, hr, _⟩ := Mxl.C15.ssLoop_copy_steady _ ok small _ 0 s.integ.y0 n r h'
+    have hn' : n = m + 1 := by omega
+    subst hn'
+    have hd : (0 : Rat) ≤ (Mxl.C15.Gen.stepSize : Rat) := Nat.cast_nonneg _
+    have hflow := flow_iter S hS s.pars (Mxl.C15.Gen.stepSize : Rat) hd (m + 1) s.integ.y0
+    have hit : steadyIter (some m) = some m := by
+      have : m < Gen.maxSteps := by rw [gen_search_agree.2]; exact hm
+      simp [steadyIter, this]
+    have hdur : steadyDur m = ((m + 1 : Nat) : Rat) * (Mxl.C15.Gen.stepSize : Rat) := by
+      unfold steadyDur
+      rw [gen_search_agree.1]
+      push_cast
+      ring
+    rw [h]
+    simp only [resOfSearch, Nat.add_sub_cancel, steady, hlive, Nat.lt_irrefl, if_false, gt_iff_lt,
+      integrateToSteadyState_eq, hit, gen_steadySkipfirst, hdur]
+    rw [← hflow, ← hr]
+  · intro hne
+    have hres : resOfSearch search = none := by
+      cases hs : search with
+      | steady n r => simp [hs, Mxl.C15.errOf] at hne
+      | noSteadyState => rfl
+      | integrationFailure => rfl
+    rw [hres]
+    simp [steady, hlive, integrateToSteadyState_eq, steadyIter]
+
 /-- a failed simulator (after `NoSteadyState` or an `IntegrationFailure`) ignores every simulating call: no exception,
     nothing recorded -/
 theorem C04_failed_is_inert {σ} (S : Sys σ) (s : Sim σ) (op : Op) (hf : s.errors > 0)
@@ -359,5 +408,12 @@ example : times (after termSys [("k", 1/2)] STerm.init
 /-- a steady-state run that does not converge within `max_steps` iterations fails the simulator -/
 example : (after termSys [] STerm.init [.steady (some 1000), .simulate 1 none]).errors = 1 ∧
     (after termSys [] STerm.init [.steady (some 1000), .simulate 1 none]).segs = none := by decide +kernel
+
+/-- non-vacuity of `C04_steady_is_the_search`: a system that rests (constant flow) is a flow, and the C15 loop succeeds on it
+    at the first step -/
+example : IsFlow (⟨fun _ _ y => y, fun _ y => y⟩ : Sys Rat) ∧
+    Mxl.C15.ssRun Mxl.C15.Gen.copies Mxl.C15.Gen.checks ((⟨fun _ _ y => y, fun _ y => y⟩ : Sys Rat).flow [] 100)
+      (fun _ => true) (fun a b => a == b) Mxl.C15.Gen.maxSteps (3 : Rat) = .steady 1 3 :=
+  ⟨⟨fun _ _ => rfl, fun _ _ _ _ _ _ => rfl⟩, by decide +kernel⟩
 
 end Mxl.C04
